@@ -370,6 +370,7 @@ PROPS = {
             ("H2V.Props.C20", "H2V.Props.C20.ping_lost_if_load_before_register"),
             ("H2V.Props.C20", "H2V.Props.C20.pong_lost_if_wake_before_cas"),
             ("H2V.Props.C20", "H2V.Props.C20.lock_order_acyclic"),
+            ("H2V.Props.C20", "H2V.Props.C20.no_transport_progress_under_streams_lock"),
         ],
         "parallel": 3,
         "profiles": [
